@@ -39,7 +39,11 @@ SIG_CHARS = list(":/?#[]@!$&'()*+,;=%") + [' ', '"', '<', '>', '\\', '^', '`', '
                                              '\x00', '\x01', '\t', '\n', '\r', '\x7f', '\x80', '\xa0',
                                              '\xe9', 'e\u0301', '\xdf', '\u65e5', '\u200b', '\u2028',
                                              '\U0001f600', '\ufffd', 'A', 'z', '0',
-                                             '%41', '%zz', '%', '%%', '%2F', '%2f', '+', 'a+b', '%C3%A9', '%FF']
+                                             '%41', '%zz', '%', '%%', '%2F', '%2f', '+', 'a+b', '%C3%A9', '%FF',
+                                             # letters whose case mappings / foldings leave ASCII or meet it: dotted and
+                                             # dotless i, long s, Kelvin and Angstrom signs, sharp s, final sigma, ligatures
+                                             '\u0130', '\u0131', '\u017f', '\u212a', '\u212b', '\u1e9e', '\u03c2', '\ufb01',
+                                             '\u00b2', '\u2460', '\uff21', '\uff10']
 COMPONENTS = ['username', 'password', 'path', 'qkey', 'qval', 'fragment']
 SCHEMES = ['http', 'https', 'ftp', 'foo', 'git+ssh', 'x-y.z']
 HOSTS = ['example.com', 'a.b.c.example', 'localhost', 'b\xfccher.ch', '\u65e5\u672c.jp', '127.0.0.1',
@@ -237,9 +241,19 @@ def check_unquote(c, st):
     uu = common.load('urlutils')
     st.monitor_evals += 1
     want = urllib.parse.unquote(c['text'], errors='replace')
+    if c.get('other_first'):
+        # somebody else decoded the same text with another codec / error handler a moment ago
+        for kw in ({'encoding': 'latin-1'}, {'errors': 'ignore'}, {'encoding': 'utf-16', 'errors': 'replace'}):
+            outcome(lambda: uu.unquote(c['text'], **kw))
     got = outcome(lambda: uu.unquote(c['text']))
     if got != ('ok', want):
-        return ('unquote-differs', 'unquote(%r) = %r, reference %r' % (c['text'], got, want))
+        return ('unquote-differs' + (':after-a-call-with-other-arguments' if c.get('other_first') else ''),
+                'unquote(%r) = %r, reference %r' % (c['text'], got, want))
+    for kw, ref in (({'encoding': 'latin-1'}, lambda t: urllib.parse.unquote(t, encoding='latin-1', errors='replace')),
+                    ({'errors': 'ignore'}, lambda t: urllib.parse.unquote(t, errors='ignore'))):
+        got2 = outcome(lambda: uu.unquote(c['text'], **kw))
+        if got2[0] == 'ok' and got2[1] != ref(c['text']):
+            return ('unquote-differs:' + '-'.join(kw), 'unquote(%r, %r) = %r, reference %r' % (c['text'], kw, got2, ref(c['text'])))
     st.see(('unq', c['text']))
     st.count('unquote')
     return None
@@ -588,7 +602,7 @@ def gen(r):
     if x < 0.45:
         return {'kind': 'quote', 'fn': r.choice(list(QUOTERS)), 'text': rtext(r, 10)}
     if x < 0.55:
-        return {'kind': 'unquote', 'text': ''.join(r.choice(['%', '%4', '%41', '%C3', '%A9', '%c3%a9', '%FF', 'a',
+        return {'kind': 'unquote', 'other_first': r.random() < 0.4, 'text': ''.join(r.choice(['%', '%4', '%41', '%C3', '%A9', '%c3%a9', '%FF', 'a',
                                                               '\xe9', '%zz', '%%', '+', ' ', '%00', '\u65e5', '%E6%97',
                                                               '%' + r.choice('0123456789abcdefABCDEF') + r.choice('0123456789abcdefABCDEF')])
                                                     for _ in range(r.randint(0, 8)))}
